@@ -405,6 +405,9 @@ func c07Changes(c *core.Ctx, r *c07Runner, maxLen int) {
 		{"x+", "\n", []string{"x", "\n", "y"}},
 	}
 	ml := maxLen - 1
+	if ml > 6 {
+		ml = 6
+	}
 	for _, p := range pairs {
 		for n := 2; n <= ml; n++ {
 			enumStrings(p.alpha, n, func(in string) {
